@@ -1,16 +1,13 @@
 import Model.RBHeap
 set_option linter.unusedSimpArgs false
 set_option linter.unusedVariables false
-/-! C06 helper lemmas, part 5: the pointer-level rotations of `Model/RBHeap.lean` (`tree.go:172-210`).
-    Core tactics only.
+/-! C06 helper lemmas, part 5: ownership of an addressed tree by the memory of the pointer-level model
+    (`Model/RBHeap.lean`).  Core tactics only.
 
     `AT` is a tree that also records at which address every node lives; `Owns t par s` says that the memory of `t`
     contains, at those addresses, exactly the nodes of `s` with the child links of `s` and with **every parent link
-    pointing to the node above** (`par` above the root of `s`).  `rotateLeft_owns` / `rotateRight_owns`: a rotation at a
-    node whose subtree is owned, with pairwise distinct addresses, never dereferences nil, re-establishes `Owns` for the
-    rotated subtree (all parent links repaired, including that of the inner grandchild that changes sides), re-points
-    the link from above (the parent's child link on the side where the node hung, else `t.root`) and changes nothing
-    else; the tree it then represents is `T.rotL` / `T.rotR` of the one before. -/
+    pointing to the node above** (`par` above the root of `s`).  `Owns.frame`: ownership only looks at the addresses of
+    the tree; `Owns.reparent`: the root may be given another parent link.  The rotations are in `RBHeapRot.lean`. -/
 namespace RB
 
 /-- a tree with the address of every node -/
